@@ -494,13 +494,9 @@ class FileResponse(Response, FileResponseMixin):
         try:
             ranges = self.parse_range(http_range, file_size)
         except (MalformedRangeHeader, RangeNotSatisfiable) as exception:
+            self.headers.update(exception.headers or {})
             await send_http_start(
-                send,
-                exception.status_code,
-                [
-                    (k.lower().encode("latin-1"), v.encode("latin-1"))
-                    for k, v in (exception.headers or {}).items()
-                ],
+                send, exception.status_code, self.list_headers(as_bytes=True)
             )
             return await send_http_body(
                 send,
